@@ -26,7 +26,7 @@ void harness(void) {
   struct opnd A, B; make(&A, NA, AORD, sh); make(&B, NB, BORD, sh);
   void* c;
 #if OP == 0
-  void* u = w_ttu_new_unit(3, 2, MAX_THETA, SEED);   /* 8 slots, k = 4: <= 4 distinct keys are never trimmed */
+  void* u = w_ttu_new_unit(ULG, ULG - 1, MAX_THETA, SEED);   /* 2^ULG slots, k = 2^(ULG-1) >= NA + NB: never trimmed */
   ASSERT(w_ttu_update(u, A.sk) == 0 && w_ttu_update(u, B.sk) == 0, "union update accepts operands with the right seed");
   c = w_ttu_result(u, RORD); w_ttu_delete(u);
 #elif OP == 1
